@@ -162,12 +162,7 @@ class Gen:
             elif x < 0.7 and vars_:
                 self.kw("initial"); self.stmt(vars_)
             elif x < 0.78 and kind == "module":
-                m, inst = self.name(esc_ok=False), self.name()
-                self.id(m); self.id(inst); self.sym("(")
-                if vars_ and r.random() < 0.7:
-                    self.sym("."); self.id(r.choice(PLAIN)); self.sym("("); self.expr(vars_); self.sym(")")
-                self.sym(")"); self.sym(";")
-                self.exp.append(("HierarchicalInstance", inst))
+                self.instantiation(vars_, params)
             elif x < 0.86:
                 f = self.name(esc_ok=False); arg = self.name()
                 self.kw("function"); self.kw(r.choice(["automatic", "logic", "int"])) if r.random() < 0.5 else None
@@ -181,13 +176,94 @@ class Gen:
                 self.stmt([arg] + vars_)
                 self.kw("endtask")
                 self.exp.append(("TaskDeclaration", t))
-            elif kind == "module" and vars_:
+            elif kind == "module" and vars_ and r.random() < 0.5:
                 g = self.name(esc_ok=False)
                 self.kw("generate"); self.kw("if"); self.sym("("); self.num(); self.sym(")"); self.kw("begin"); self.sym(":"); self.id(g)
                 n = self.name(); self.kw("wire"); self.id(n); self.sym(";"); self.exp.append(("NetDeclAssignment", n))
+                if r.random() < 0.5:
+                    self.instantiation(vars_, params)
                 self.kw("end"); self.kw("endgenerate")
                 self.exp.append(("GenerateBlock", g))
+            elif kind == "module" and vars_:
+                self.misc_item(vars_, params)
         self.kw("end" + kind)
+
+    def connections(self, vars_):
+        r = self.r
+        self.sym("(")
+        x = r.random()
+        if not vars_ or x < 0.15:
+            pass
+        elif x < 0.5:
+            for i in range(r.randint(1, 2)):
+                if i:
+                    self.sym(",")
+                self.sym("."); self.id(r.choice(PLAIN)); self.sym("("); self.expr(vars_); self.sym(")")
+        elif x < 0.8:
+            for i in range(r.randint(1, 3)):
+                if i:
+                    self.sym(",")
+                self.expr(vars_)
+        elif x < 0.9:
+            self.sym(".*")
+        else:
+            self.sym("."); self.id(r.choice(vars_))
+        self.sym(")")
+
+    def instantiation(self, vars_, params):
+        """module_instantiation: [#(...)] instance [range] (connections) {, instance ...}"""
+        r = self.r
+        m = self.name(esc_ok=False)
+        self.id(m)
+        self.exp.append(("ModuleInstantiation", m))
+        x = r.random()
+        if x < 0.2:
+            self.sym("#", "("); self.num(); self.sym(")")
+        elif x < 0.4:
+            self.sym("#", "("); self.sym("."); self.id(r.choice(PLAIN)); self.sym("("); self.num(); self.sym(")"); self.sym(")")
+        for i in range(r.choice([1, 1, 1, 2])):
+            if i:
+                self.sym(",")
+            inst = self.name()
+            self.id(inst)
+            if r.random() < 0.35:
+                self.sym("["); self.num(); self.sym(":"); self.num(); self.sym("]")
+            self.connections(vars_)
+            self.exp.append(("HierarchicalInstance", inst))
+        self.sym(";")
+
+    def misc_item(self, vars_, params):
+        r = self.r
+        x = r.random()
+        if x < 0.2:
+            p = self.name(esc_ok=False)
+            self.kw("localparam"); self.id(p); self.sym("="); self.num(); self.sym(";")
+            self.exp.append(("ParamAssignment", p)); params.append(p)
+        elif x < 0.4:
+            g = self.name()
+            self.kw(r.choice(["and", "or", "nand", "xor"])); self.id(g); self.sym("(")
+            self.id(r.choice(vars_)); self.sym(","); self.id(r.choice(vars_)); self.sym(","); self.id(r.choice(vars_))
+            self.sym(")"); self.sym(";")
+            self.exp.append(("NInputGateInstance", g))
+        elif x < 0.6:
+            gv, blk = self.name(esc_ok=False), self.name(esc_ok=False)
+            self.kw("genvar"); self.id(gv); self.sym(";")
+            self.kw("for"); self.sym("("); self.id(gv); self.sym("="); self.num(); self.sym(";"); self.id(gv); self.sym("<"); self.num()
+            self.sym(";"); self.id(gv); self.sym("="); self.id(gv); self.sym("+"); self.num(); self.sym(")")
+            self.kw("begin"); self.sym(":"); self.id(blk)
+            self.instantiation(vars_, params)
+            self.kw("end")
+            self.exp.append(("GenerateBlock", blk))
+        elif x < 0.8:
+            t = self.name(esc_ok=False)
+            a, b = self.name(esc_ok=False), self.name(esc_ok=False)
+            self.kw("typedef"); self.kw("enum"); self.sym("{"); self.id(a); self.sym(","); self.id(b); self.sym("}"); self.id(t); self.sym(";")
+            self.exp.append(("TypeDeclaration", t))
+        else:
+            t, f = self.name(esc_ok=False), self.name()
+            self.kw("typedef"); self.kw("struct"); self.kw("packed"); self.sym("{"); self.kw("logic"); self.id(f); self.sym(";"); self.sym("}")
+            self.id(t); self.sym(";")
+            self.exp.append(("TypeDeclaration", t))
 
     def package(self):
         name = self.name(esc_ok=False)
